@@ -1219,6 +1219,86 @@ run_reqresend(void *arg)
 #undef SETR
 }
 
+// ---- statistics snapshot racing with objects coming and going ------------------------------------------
+// One thread takes a statistics snapshot (nng_stats_get walks the whole tree of sockets, endpoints
+// and pipes and reads every item) and releases it, while another thread makes a connection appear
+// and disappear (dial, exchange, close) or closes a whole socket.  Every schedule within the
+// budget; oracles: sanitizers, accounting allocator, termination.
+static nng_socket st_a, st_b;
+static int        st_mode;
+static void *
+st_snap(void *arg)
+{
+	(void) arg;
+	for (int i = 0; i < 2; i++) {
+		nng_stat *st = NULL;
+		if (nng_stats_get(&st) == 0) {
+			// read something from every node
+			volatile uint64_t sum = 0;
+			for (const nng_stat *x = nng_stat_child(st); x != NULL; x = nng_stat_next(x)) {
+				sum += nng_stat_value(x) + (uint64_t) nng_stat_type(x);
+				for (const nng_stat *y = nng_stat_child(x); y != NULL; y = nng_stat_next(y)) {
+					sum += nng_stat_value(y);
+					for (const nng_stat *z = nng_stat_child(y); z != NULL;
+					     z               = nng_stat_next(z))
+						sum += nng_stat_value(z) + strlen(nng_stat_name(z));
+				}
+			}
+			nng_stats_free(st);
+		}
+	}
+	return NULL;
+}
+static void *
+st_churn(void *arg)
+{
+	(void) arg;
+	nng_dialer d;
+	switch (st_mode) {
+	case 0: // a connection appears, carries a message, disappears
+		if (nng_dial(st_b, "inproc://c03stats", &d, 0) == 0) {
+			(void) snd(st_b, "x", NNG_FLAG_NONBLOCK);
+			(void) nng_dialer_close(d);
+		}
+		break;
+	case 1: // a socket with a live connection is closed
+		(void) nng_socket_close(st_b);
+		break;
+	default: // a listener is added and removed
+	{
+		nng_listener l;
+		if (nng_listen(st_a, "inproc://c03stats2", &l, 0) == 0)
+			(void) nng_listener_close(l);
+	} break;
+	}
+	return NULL;
+}
+static void
+run_stats(void *arg)
+{
+	st_mode = (int) (intptr_t) arg;
+	vh_init(1);
+	VH_OK(nng_pair0_open(&st_a));
+	VH_OK(nng_pair0_open(&st_b));
+	VH_OK(nng_listen(st_a, "inproc://c03stats", NULL, 0));
+	if (st_mode == 1)
+		VH_OK(nng_dial(st_b, "inproc://c03stats", NULL, 0));
+	vs_settle();
+	pthread_t t1, t2;
+	vs_window(1);
+	pthread_create(&t1, NULL, st_snap, NULL);
+	pthread_create(&t2, NULL, st_churn, NULL);
+	pthread_join(t1, NULL);
+	pthread_join(t2, NULL);
+	vs_settle();
+	vs_window(0);
+	vs_nontrivial();
+	vs_outcome("mode=%d", st_mode);
+	(void) nng_socket_close(st_b);
+	(void) nng_socket_close(st_a);
+	vh_fini();
+}
+
 // ---- device scenario ----------------------------------------------------------------------
 static void
 run_device(void *arg)
@@ -1551,6 +1631,22 @@ main(int argc, char **argv)
 		vx_explore(&c, NULL);
 	}
 	explore("req-resend-time-change", run_reqresend);
+	for (int md = 0; md < 3; md++) {
+		static const char *SN[] = { "stats-vs-connection", "stats-vs-socket-close",
+			"stats-vs-listener" };
+		vx_cfg c;
+		memset(&c, 0, sizeof(c));
+		c.prop               = "C03";
+		c.scenario           = SN[md];
+		c.run                = run_stats;
+		c.arg                = (void *) (intptr_t) md;
+		c.budget[VB_PREEMPT] = T ? 2 : 1;
+		c.budget[VB_SWITCH]  = 2;
+		c.budget[VB_ENV]     = -1;
+		c.total              = 2;
+		c.deadline_s         = T ? 120 : 10;
+		vx_explore(&c, NULL);
+	}
 	explore("device", run_device);
 	for (int k = 0; k < 3; k++)
 		explore_fan(k);
